@@ -1657,6 +1657,8 @@ pub struct PairRun {
     pub lock_held: Vec<String>,
     /// stream records kept although the id map no longer points at them, per side: (stream id, handles)
     pub orphans: Vec<(Side, Vec<(u32, usize)>)>,
+    /// the same records with the queues that still hold them (probe `orphan_flags`)
+    pub orphan_flags: Vec<(Side, Vec<(u32, u8)>)>,
 }
 
 pub fn run_pair(case: &PairCase) -> PairRun {
@@ -1859,6 +1861,7 @@ pub fn run_sim_cap(case: &PairCase, raw: Option<(Side, Rc<crate::sim_raw::RawSpe
             nested: exec.nested_polls(),
             lock_held: lock_held.borrow().clone(),
             orphans: ctx.probes.borrow().iter().map(|(s, p)| (*s, p.orphans().unwrap_or_default())).collect(),
+        orphan_flags: ctx.probes.borrow().iter().map(|(s, p)| (*s, p.orphan_flags().unwrap_or_default())).collect(),
         };
         teardown_all(exec, ctx, &mut run);
         crate::heapmeter::end_case();
@@ -1880,6 +1883,7 @@ pub fn run_sim_cap(case: &PairCase, raw: Option<(Side, Rc<crate::sim_raw::RawSpe
         nested: exec.nested_polls(),
         lock_held: lock_held.borrow().clone(),
         orphans: ctx.probes.borrow().iter().map(|(s, p)| (*s, p.orphans().unwrap_or_default())).collect(),
+        orphan_flags: ctx.probes.borrow().iter().map(|(s, p)| (*s, p.orphan_flags().unwrap_or_default())).collect(),
     };
     teardown_all(exec, ctx, &mut run);
     crate::heapmeter::end_case();
